@@ -309,6 +309,32 @@ def multicall(ctx, c, rng):
     judge_exchange(ctx, c, case, out, ran, expected_calls, planned, hmark, bmark, "multicall")
 
 
+def multicall_method_reuse(ctx, c, rng):
+    """The object returned by one attribute access on a batch is CALLED twice (m = batch.f; m(1); m(2)): two calls."""
+    import jsonrpclib
+    mc = jsonrpclib.MultiCall(c.proxy)
+    a1, a2 = rng.randrange(1000), rng.randrange(1000, 2000)
+    c.planned.clear()
+    c.planned.extend(["first", "second"])
+    mark = c.fx.log.mark()
+    case = {"cell": list(c.cell), "style": "multicall-method-object-reused", "args": [a1, a2]}
+    try:
+        m = mc.f
+        m(a1)
+        m(a2)
+        out = ("return", [r for r in mc()])
+    except BaseException as ex:  # noqa
+        out = ("raise", ex)
+    ran = dm.inv_repr(c.fx.log.since(mark))
+    ctx.case((c.cell, "multicall-method-object-reused", a1, a2), nontrivial=True)
+    ctx.count("judged:multicall-method-object-reused")
+    if out[0] == "raise":
+        ctx.violate("multicall:method-object-called-twice:raised-%s" % type(out[1]).__name__, case, {"raised": out[1]})
+    elif len(ran) != 2 or out[1] != ["first", "second"]:
+        ctx.violate("multicall:method-object-called-twice:queued-%d-time(s)" % len(ran), case,
+                    {"ran": ran, "results": out[1]})
+
+
 def run(ctx):
     rng = ctx.rng
     per = ctx.pick(1500, 15000)
@@ -323,6 +349,8 @@ def run(ctx):
                 single_call(ctx, c, rng, name, "getattr")
                 if "." in name and all(s.isidentifier() for s in name.split(".")):
                     single_call(ctx, c, rng, name, "chain")
+            for i in range(3):
+                multicall_method_reuse(ctx, c, rng)
             for i in range(per):
                 r = rng.random()
                 if r < 0.7:
